@@ -2,7 +2,7 @@
    Property theorems only; every proof is [exact <lemma>].  The model is State/Wavefunction.v; the Gosper step and
    the most-significant-bit function used by the Dicke constructor are generated from wavefunction.py on every
    run (Gen/GosperGen.v).  [tol] is the tolerance of the normalisation test (the code: np_tol). *)
-Require Import Coq.ZArith.ZArith Coq.QArith.QArith Coq.QArith.Qabs Coq.Lists.List Coq.Bool.Bool.
+Require Import Coq.ZArith.ZArith Coq.QArith.QArith Coq.QArith.Qabs Coq.Lists.List Coq.Bool.Bool Coq.Sorting.Sorted.
 Require Import OQ.Gen.GosperGen OQ.State.Wavefunction OQ.State.WavefunctionProofs.
 Import ListNotations.
 Local Open Scope nat_scope.
@@ -22,30 +22,19 @@ Theorem power_of_two_lengths : forall n, pow2b n = true <-> exists k : nat, n = 
 Proof. exact pow2b_spec. Qed.
 Print Assumptions power_of_two_lengths.
 
-(* ---- one operation (element assignment, slice assignment, binding): invariant kept; on an error nothing changed.
-   FULL STATEMENT (refuted by the faithful model, see step_error_leaves_unchanged_refuted below):
-     forall tol s o s' r, Inv tol s -> step tol s o = (s', r) -> Inv tol s' /\ (r <> Ok -> s' = s).
-   Proved for every operation except the one shape of finding F27 ([partial_write_hazard]: slice assignment into
-   flat numpy storage whose values have the slice's length and contain a symbol after a number). *)
-Theorem step_keeps_invariant_or_leaves_unchanged_partial : forall tol s o s' r,
-  Inv tol s -> partial_write_hazard s o = false ->
-  step tol s o = (s', r) -> Inv tol s' /\ (r <> Ok -> s' = s).
+(* ---- one operation (element assignment, list-at-index assignment, slice assignment, binding), no exclusion:
+        the invariant is kept, and on ANY error (ValueError, TypeError, IndexError) nothing changed *)
+Theorem step_keeps_invariant_or_leaves_unchanged : forall tol s o s' r,
+  Inv tol s -> step tol s o = (s', r) -> Inv tol s' /\ (r <> Ok -> s' = s).
 Proof. exact step_spec. Qed.
-Print Assumptions step_keeps_invariant_or_leaves_unchanged_partial.
+Print Assumptions step_keeps_invariant_or_leaves_unchanged.
 
-Theorem step_error_leaves_unchanged_refuted :
-  let s := (NpFlat, [Num 1 0; Num 0 0]) in
-  let o := SetSlice 0 2 [Num (1 # 2) 0; Symb 1] in
-  Inv np_tol s /\ snd (step np_tol s o) = ErrType /\ fst (step np_tol s o) <> s /\
-  check np_tol (amps (fst (step np_tol s o))) = false.
-Proof. exact partial_write_breaks. Qed.
-Print Assumptions step_error_leaves_unchanged_refuted.
-
-(* the restore step of __setitem__ (write the saved old values back) reproduces the list exactly *)
-Theorem rejected_assignment_restores_exactly : forall (l : list amp) lo seg,
-  lo + length seg <= length l -> write (write l lo seg) lo (segment l lo (length seg)) = l.
-Proof. exact (@write_restore amp). Qed.
-Print Assumptions rejected_assignment_restores_exactly.
+(* the shape of (fixed) finding F37: a slice assignment carrying a symbol into flat numpy storage raises TypeError and
+   the object is as before, whatever numpy had already stored *)
+Theorem symbol_in_numpy_slice_rejected_unchanged : forall tol s lo hi vs, bk s = NpFlat -> has_symb vs = true ->
+  set_slice tol s lo hi vs = (s, ErrType).
+Proof. exact symbol_into_numpy_slice. Qed.
+Print Assumptions symbol_in_numpy_slice_rejected_unchanged.
 
 (* an in-range element assignment is accepted exactly when the resulting vector passes the test *)
 Theorem element_assignment_effect : forall tol s i v s' r, Inv tol s ->
@@ -56,27 +45,31 @@ Theorem element_assignment_effect : forall tol s i v s' r, Inv tol s ->
 Proof. exact set_item_effect. Qed.
 Print Assumptions element_assignment_effect.
 
-(* ---- every reachable object: any created object, any sequence of operations, accepted or rejected, as long as no
-        step is of the F27 shape ([safe_history]; in particular whenever no slice assignment carries a symbol) *)
-Theorem reachable_states_normalised_partial : forall tol col v s0 ops,
-  create tol col v = Some s0 -> safe_history tol s0 ops = true -> Inv tol (run tol s0 ops).
-Proof. exact run_inv_created. Qed.
-Print Assumptions reachable_states_normalised_partial.
+(* a list assigned at an integer index of a sympy-backed object spills over the following entries (what sympy does);
+   the whole spill is stored when the result passes the test and otherwise the object is exactly as before (F29) *)
+Theorem list_assignment_spills_or_leaves_unchanged : forall tol s i vs s' r, Inv tol s -> bk s = Mat ->
+  (0 <= i < Z.of_nat (length (amps s)))%Z -> Z.to_nat i + length vs <= length (amps s) ->
+  set_item_list tol s i vs = (s', r) ->
+  (check tol (write (amps s) (Z.to_nat i) vs) = true -> r = Ok /\ s' = (Mat, write (amps s) (Z.to_nat i) vs)) /\
+  (check tol (write (amps s) (Z.to_nat i) vs) = false -> r = ErrValue /\ s' = s).
+Proof. exact set_item_list_effect. Qed.
+Print Assumptions list_assignment_spills_or_leaves_unchanged.
 
-Theorem every_snapshot_normalised_partial : forall tol ops s, Inv tol s -> safe_history tol s ops = true ->
+(* ---- every reachable object: any created object, any sequence of operations, accepted or rejected *)
+Theorem reachable_states_normalised : forall tol col v s0 ops,
+  create tol col v = Some s0 -> Inv tol (run tol s0 ops).
+Proof. exact run_inv_created. Qed.
+Print Assumptions reachable_states_normalised.
+
+Theorem every_snapshot_normalised : forall tol ops s, Inv tol s ->
   Forall (fun rs => Inv tol (snd rs)) (trace tol s ops).
 Proof. exact trace_inv. Qed.
-Print Assumptions every_snapshot_normalised_partial.
+Print Assumptions every_snapshot_normalised.
 
-Theorem every_rejected_step_leaves_snapshot_partial : forall tol ops s, Inv tol s -> safe_history tol s ops = true ->
+Theorem every_rejected_step_leaves_snapshot : forall tol ops s, Inv tol s ->
   unchanged_on_error s (trace tol s ops).
 Proof. exact trace_unchanged. Qed.
-Print Assumptions every_rejected_step_leaves_snapshot_partial.
-
-Theorem histories_with_numeric_slices_are_safe : forall tol ops,
-  forallb slice_values_numeric ops = true -> forall s, safe_history tol s ops = true.
-Proof. exact numeric_slices_safe. Qed.
-Print Assumptions histories_with_numeric_slices_are_safe.
+Print Assumptions every_rejected_step_leaves_snapshot.
 
 (* a history mixing accepted and rejected steps on a mixed numeric/symbolic vector *)
 Example history_premises_met :
@@ -86,10 +79,11 @@ Example history_premises_met :
                             Bind [(2%positive, Num 1 0)]; Bind [(2%positive, Num (-1#2) 0)]; SetItem (-1) (Num 1 0);
                             SetSlice 1 3 [Num 0 (-1#2)]; SetItem 9 (Num 0 0); SetItem 1 (Symb 3)])
   = [ErrValue; Ok; ErrValue; ErrValue; Ok; ErrValue; Ok; ErrIndex; ErrType] /\
-  safe_history np_tol s0 [SetItem 0 (Num 1 0); SetItem 0 (Num (1#2) 0); SetSlice 0 2 [Num 0 0; Num 0 0];
-                            Bind [(2%positive, Num 1 0)]; Bind [(2%positive, Num (-1#2) 0)]; SetItem (-1) (Num 1 0);
-                            SetSlice 1 3 [Num 0 (-1#2)]; SetItem 9 (Num 0 0); SetItem 1 (Symb 3)] = true.
-Proof. eexists. split; [vm_compute; reflexivity|split; vm_compute; reflexivity]. Qed.
+  map fst (trace np_tol s0 [SetItemList 1 [Num 1 0; Num 1 0]; SetItemList 0 [Num (1#2) 0; Num 0 (1#2)]; SetItemList 3 [Num 0 0; Num 0 0]])
+  = [ErrValue; Ok; ErrValue] /\
+  trace np_tol (NpFlat, [Num 1 0; Num 0 0]) [SetSlice 0 2 [Num (1#2) 0; Symb 1]]
+  = [(ErrType, (NpFlat, [Num 1 0; Num 0 0]))].
+Proof. eexists. split; [vm_compute; reflexivity|repeat split; vm_compute; reflexivity]. Qed.
 
 (* ---- bind: returns the receiver itself exactly when there is nothing to bind; otherwise a new object created
         from the substituted vector (so it satisfies the invariant) or an error; the receiver's state never changes
@@ -186,5 +180,39 @@ Theorem dicke_rejects_exactly : forall n k, dicke_indices n k = DErr <-> (n <= 0
 Proof. exact dicke_rejects. Qed.
 Print Assumptions dicke_rejects_exactly.
 
+(* ---- the Gosper step (generated from the source), for EVERY positive input: closed form on the block decomposition,
+        and: the result is larger, has the same number of ones, and nothing strictly in between has *)
+Theorem gosper_step_closed_form : forall A c j, (0 <= A)%Z -> (1 <= c)%Z -> (0 <= j)%Z ->
+  get_next_number_with_same_hamming_weight (A * 2 ^ (j + c + 1) + (2 ^ c - 1) * 2 ^ j)%Z
+  = (A * 2 ^ (j + c + 1) + 2 ^ (j + c) + (2 ^ (c - 1) - 1))%Z.
+Proof. exact gosper_closed_form. Qed.
+Print Assumptions gosper_step_closed_form.
+
+Theorem gosper_step_is_next_with_same_weight : forall v, (0 < v)%Z ->
+  let w := get_next_number_with_same_hamming_weight v in
+  (v < w)%Z /\ popcount w = popcount v /\ (forall u, (v < u < w)%Z -> popcount u <> popcount v).
+Proof. exact gosper_next_spec. Qed.
+Print Assumptions gosper_step_is_next_with_same_weight.
+
+(* ---- Dicke states for EVERY number of qubits and every admissible weight (no bound): the loop terminates within its
+        fuel, its index list is strictly increasing and contains exactly the basis states of Hamming weight k; each of
+        them gets probability 1/count, every other state 0, and the probabilities sum to 1 *)
+Theorem dicke_support_and_probabilities : forall n k, (1 <= n)%Z -> (0 <= k <= n)%Z ->
+  exists idx, dicke_indices n k = DIdx idx /\
+    (forall i, In i idx <-> (0 <= i < 2 ^ n)%Z /\ popcount i = k) /\ StronglySorted Z.lt idx /\ NoDup idx /\
+    (qsum (dicke_probs n idx) == 1)%Q /\
+    (forall i, (0 <= i < 2 ^ n)%Z ->
+       nth (Z.to_nat i) (dicke_probs n idx) 0%Q
+       = if Z.eqb (popcount i) k then (1 # Pos.of_nat (length idx))%Q else 0%Q).
+Proof. exact dicke_all_spec. Qed.
+Print Assumptions dicke_support_and_probabilities.
+
 Example dicke_premises_met : dicke_indices 4 2 = DIdx [3; 5; 6; 9; 10; 12]%Z /\ map popcount [3; 5; 6; 9; 10; 12]%Z = [2; 2; 2; 2; 2; 2]%Z.
 Proof. split; vm_compute; reflexivity. Qed.
+
+Example save_load_premises_met :
+  let s := (NpFlat, [Num (1#2) 0; Num 0 (1#2); Num (-1#2) 0; Num 0 (-1#2)]) in
+  create np_tol false (amps s) = Some s /\
+  save s = Some (false, [1#2; 0; -1#2; 0]%Q, [0; 1#2; 0; -1#2]%Q) /\
+  load np_tol (false, [1#2; 0; -1#2; 0]%Q, [0; 1#2; 0; -1#2]%Q) = Some s.
+Proof. repeat split; vm_compute; reflexivity. Qed.
